@@ -1346,10 +1346,6 @@ export class AllOfRuntype extends BaseRuntype {
   }
   validate(ctx: ValidateContext, input: unknown): boolean {
     for (const it of this.schemas) {
-      const isObj = typeof input === "object";
-      if (!isObj) {
-        return false;
-      }
       if (!it.validate(ctx, input)) {
         return false;
       }
@@ -1357,6 +1353,10 @@ export class AllOfRuntype extends BaseRuntype {
     return true;
   }
   parseAfterValidation(ctx: ParseContext, input: any): unknown {
+    if (typeof input !== "object" || input === null) {
+      // intersections of non-object types ("a" & string, A & null) have nothing to project
+      return input;
+    }
     let acc = {};
     for (const it of this.schemas) {
       const parsed = it.parseAfterValidation(ctx, input);
